@@ -34,6 +34,8 @@ pub enum Op {
     ApplyGalois { elt: usize, level: usize, seed: u64 },
     ApplyGaloisPlain { elt: usize, level: usize, seed: u64 },
     Encrypt { sym: bool, seed: u64 },
+    /// encode and decode on the shared encoder (immutable objects; exercised for the "encoder or context shared" clause)
+    Encode { seed: u64 },
 }
 
 impl Op {
@@ -49,6 +51,7 @@ impl Op {
             Op::ApplyGalois { .. } => "apply-galois",
             Op::ApplyGaloisPlain { .. } => "apply-galois-plain",
             Op::Encrypt { .. } => "encrypt",
+            Op::Encode { .. } => "encode-decode",
         }
     }
     pub fn to_json(&self) -> Value {
@@ -63,6 +66,7 @@ impl Op {
             Op::ApplyGalois { elt, level, seed } => json!({"op": "apply-galois", "elt": elt, "level": level, "seed": seed}),
             Op::ApplyGaloisPlain { elt, level, seed } => json!({"op": "apply-galois-plain", "elt": elt, "level": level, "seed": seed}),
             Op::Encrypt { sym, seed } => json!({"op": "encrypt", "sym": sym, "seed": seed}),
+            Op::Encode { seed } => json!({"op": "encode-decode", "seed": seed}),
         }
     }
     pub fn from_json(v: &Value) -> Option<Op> {
@@ -82,6 +86,7 @@ impl Op {
             "apply-galois" => Op::ApplyGalois { elt: u("elt")? as usize, level: u("level")? as usize, seed: u("seed")? },
             "apply-galois-plain" => Op::ApplyGaloisPlain { elt: u("elt")? as usize, level: u("level")? as usize, seed: u("seed")? },
             "encrypt" => Op::Encrypt { sym: b("sym")?, seed: u("seed")? },
+            "encode-decode" => Op::Encode { seed: u("seed")? },
             _ => return None,
         })
     }
@@ -143,7 +148,7 @@ pub struct Setup {
     pub key_poly: usize,
 }
 
-const MAX_SIZE: usize = 6;
+const MAX_SIZE: usize = 9;
 
 pub fn setup(scn: &Scn) -> Result<Setup, String> {
     gen::with_entropy(scn.ent, |_| {
@@ -184,18 +189,24 @@ pub struct SharedObjs {
     pub keygen: KeyGenerator,
     pub eval: Evaluator,
     pub enc: Encryptor,
+    pub batch: Option<BatchEncoder>,
+    pub ckks: Option<CKKSEncoder>,
 }
 
 pub fn fresh_shared(scn: &Scn, su: &Setup) -> Result<Arc<SharedObjs>, String> {
     let ctx = gen::build_context(&scn.spec)?;
     let sk = su.world.sk.clone();
     let pk = su.world.pk.clone();
+    let scheme = scn.spec.scheme;
+    let batching = su.world.batching();
     util::catch_res(move || {
         Arc::new(SharedObjs {
             dec: Decryptor::new(ctx.clone(), sk.clone()),
             keygen: KeyGenerator::from_sk(ctx.clone(), sk.clone()),
             eval: Evaluator::new(ctx.clone()),
             enc: Encryptor::new(ctx.clone()).set_public_key(pk).set_secret_key(sk),
+            batch: if scheme != CKKS && batching { Some(BatchEncoder::new(ctx.clone())) } else { None },
+            ckks: if scheme == CKKS { Some(CKKSEncoder::new(ctx.clone())) } else { None },
             ctx,
         })
     })
@@ -260,6 +271,31 @@ pub fn exec_op(op: &Op, sh: &SharedObjs, su: &Setup) -> Vec<u8> {
             }
             p.set_parms_id(id);
             ser_obj(Obj::Plain(sh.eval.apply_galois_plain_new(&p, *elt)), &sh.ctx)
+        }
+        Op::Encode { seed } => {
+            let mut r = Prng::new(*seed);
+            if let Some(e) = &sh.ckks {
+                let vals: Vec<num_complex::Complex<f64>> = (0..e.slot_count()).map(|_| num_complex::Complex::new(r.below(9) as f64 - 4.0, r.below(9) as f64 - 4.0)).collect();
+                let p = e.encode_c64_array_new(&vals, None, (1u64 << 20) as f64);
+                let back = e.decode_new(&p);
+                let mut out = ser_obj(Obj::Plain(p), &sh.ctx);
+                for c in back {
+                    out.extend_from_slice(&c.re.to_bits().to_le_bytes());
+                    out.extend_from_slice(&c.im.to_bits().to_le_bytes());
+                }
+                out
+            } else if let Some(e) = &sh.batch {
+                let vals: Vec<u64> = (0..e.slot_count()).map(|_| r.below(w.spec.t)).collect();
+                let p = e.encode_new(&vals);
+                let back = e.decode_new(&p);
+                let mut out = ser_obj(Obj::Plain(p), &sh.ctx);
+                for v in back {
+                    out.extend_from_slice(&v.to_le_bytes());
+                }
+                out
+            } else {
+                Vec::new()
+            }
         }
         Op::Encrypt { sym, seed } => {
             let p = w.random_plain(&mut Prng::new(*seed));
@@ -361,11 +397,13 @@ pub struct Exec {
     pub degenerate_ops: usize,
     pub total_ops: usize,
     pub nondeterministic: bool,
+    pub free_run: bool,
 }
 
 /// One concurrent execution under a given strategy, judged against the reference.
 pub fn execute(scn: &Scn, su: &Arc<Setup>, rf: &Reference, strategy: Strategy, sched_seed: u64) -> Result<Exec, String> {
     let sh = fresh_shared(scn, su)?;
+    let free_run = matches!(strategy, Strategy::FreeRun);
     let probe = make_probe(sh.clone(), su);
     let mut bodies: Vec<Box<dyn FnOnce() -> Vec<OpOut> + Send>> = Vec::new();
     for ops in scn.threads.iter() {
@@ -442,7 +480,7 @@ pub fn execute(scn: &Scn, su: &Arc<Setup>, rf: &Reference, strategy: Strategy, s
             }
         }
     }
-    Ok(Exec { bad, trace: res.trace, choices: res.choices, enabled_counts: res.enabled_counts, diverged: res.diverged, degenerate_ops, total_ops, nondeterministic: res.nondeterministic })
+    Ok(Exec { bad, trace: res.trace, choices: res.choices, enabled_counts: res.enabled_counts, diverged: res.diverged, degenerate_ops, total_ops, nondeterministic: res.nondeterministic, free_run })
 }
 
 // ---------------------------------------------------------------------------------------
@@ -475,7 +513,7 @@ fn gen_scenario(rng: &mut Prng, run_seed: u64) -> Option<Scn> {
                 0 => &[0, 0, 0, 1, 2],
                 1 => &[3, 3, 4, 5, 6],
                 2 => &[5, 7, 7, 8, 8],
-                _ => &[0, 1, 2, 3, 4, 5, 6, 7, 8, 9],
+                _ => &[0, 1, 2, 3, 4, 5, 6, 7, 8, 9, 10],
             };
             let k = *rng.pick(pickset);
             let level = rng.usize_below(nlevels.max(1));
@@ -508,7 +546,8 @@ fn gen_scenario(rng: &mut Prng, run_seed: u64) -> Option<Scn> {
                     }
                 }
                 8 => Op::ApplyGaloisPlain { elt: if rng.coin() { *rng.pick(&shared_elts) } else { 2 * rng.usize_below(n) + 1 }, level, seed },
-                _ => Op::Encrypt { sym: rng.coin(), seed },
+                9 => Op::Encrypt { sym: rng.coin(), seed },
+                _ => Op::Encode { seed },
             };
             ops.push(op);
         }
@@ -518,7 +557,8 @@ fn gen_scenario(rng: &mut Prng, run_seed: u64) -> Option<Scn> {
 }
 
 fn draw_strategy(rng: &mut Prng, nthreads: usize, approx_steps: usize) -> (Strategy, &'static str) {
-    match rng.below(10) {
+    match rng.below(11) {
+        10 => (Strategy::FreeRun, "free-run"),
         0..=3 => (Strategy::Random, "random"),
         4 | 5 => (Strategy::Sticky { stay: rng.range(8, 14) as u64 }, "sticky"),
         6 | 7 => {
@@ -538,6 +578,7 @@ fn draw_strategy(rng: &mut Prng, nthreads: usize, approx_steps: usize) -> (Strat
 fn strategy_json(s: &Strategy) -> Value {
     match s {
         Strategy::Random => json!("random"),
+        Strategy::FreeRun => json!("free-run (real parallelism, supplementary)"),
         Strategy::Sticky { stay } => json!({"sticky": stay}),
         Strategy::Pct { prio, change_at } => json!({"pct": {"prio": prio, "change_at": change_at}}),
         Strategy::StallWriter { victim, nth } => json!({"stall-writer": {"victim": victim, "nth": nth}}),
@@ -560,6 +601,7 @@ fn violation(scn: &Scn, ex: &Exec, class: &str, part: &str, detail: &str) -> Vio
         replay: json!({
             "scenario": scn.to_json(),
             "choices": ex.choices,
+            "free_run": ex.free_run,
             "trace": sched::trace_json(&ex.trace),
         }),
     }
@@ -885,6 +927,24 @@ pub fn replay(doc: &Value) -> i32 {
             println!("  class={} {}", v.class, v.detail);
             return 1;
         }
+    }
+    if doc["replay"]["free_run"].as_bool() == Some(true) {
+        // found under real parallelism (supplementary mode): no schedule to force; search again
+        let su = match setup(&scn) { Ok(s) => Arc::new(s), Err(e) => { eprintln!("replay diverged: {}", e); return 2; } };
+        let rf = match reference(&scn, &su) { Ok(r) => r, Err(e) => { eprintln!("replay diverged: {}", e); return 2; } };
+        let mut r = Prng::new(0xF5EE);
+        for attempt in 0..2000 {
+            let strat = if attempt % 2 == 0 { Strategy::FreeRun } else { draw_strategy(&mut r, scn.threads.len(), rf.points as usize).0 };
+            if let Ok(ex) = execute(&scn, &su, &rf, strat, r.next_u64()) {
+                if let Some((class, _p, detail)) = ex.bad {
+                    println!("VIOLATION property={} replay={}", PROP, doc["__path"].as_str().unwrap_or("?"));
+                    println!("  class={} (re-found in attempt {}) {}", class, attempt, detail);
+                    return 1;
+                }
+            }
+        }
+        println!("{} replay: a violation found under real parallelism did not show again in 2000 executions", PROP);
+        return 0;
     }
     let Some(ex) = try_forced(&scn, &choices, true) else {
         eprintln!("replay diverged: scenario no longer builds");
